@@ -808,6 +808,26 @@ def cache_correspond(ctx: Ctx, n_hist: int):
                     ctx.witness("cache:qulacs.convert_operator", "estimate through the operator cache differs from the expectation value of the current operator content",
                                 {"ops": ops[:], "circuit": [gate_struct(g, None, None) for g in gates]},
                                 {"got": str(val), "want": str(want)})
+                # (d) the same cache reached by a bare Pauli label (identity included) and by convert_operator directly
+                #     (no zero-operator shortcut in front of it): the returned operator must have the CURRENT content
+                if rng.random() < 0.5:
+                    lab = rng.choice(labs)
+                    lv = est(lab, state if nq == 2 else state3).value
+                    lw = valsem.expectation(nq, gates, [(tuple(lab), 1.0)])
+                    ctx.traces += 1
+                    if abs(complex(lv) - lw) > 1e-9:
+                        ctx.witness("cache:qulacs.convert_operator", f"estimate of the bare label {lab!s} through the operator cache is wrong",
+                                    {"ops": ops[:], "label": str(lab), "circuit": [gate_struct(g, None, None) for g in gates]},
+                                    {"got": str(lv), "want": str(lw)})
+                qo = qop.convert_operator(objs[h], nq)
+                got_terms = sorted(
+                    (tuple(sorted(zip(qo.get_term(i).get_index_list(), qo.get_term(i).get_pauli_id_list()))), complex(qo.get_term(i).get_coef()))
+                    for i in range(qo.get_term_count()))
+                want_terms = sorted((tuple(sorted((int(q), int(pp)) for q, pp in p)), complex(v)) for p, v in objs[h].items())
+                ctx.traces += 1
+                if got_terms != want_terms:
+                    ctx.witness("cache:qulacs.convert_operator", "convert_operator returned an operator whose terms are not the current content of its argument",
+                                {"ops": ops[:], "n_qubits": nq}, {"got": str(got_terms)[:300], "want": str(want_terms)[:300]})
         hists.append(ops)
         reals.append(real)
     resp = ctx.driver(["c20cache " + ";".join(o) for o in hists], entry=ENTRY)
